@@ -20,7 +20,7 @@ VARIABLES now,
 
 vars == <<now, cq, hs, shut, budget, emit, obs>>
 
-Ev(k, q, i, cls, x) == [k |-> k, t |-> now, q |-> q, inv |-> i, cls |-> cls, x |-> x, r |-> 1, ty |-> ""]
+Ev(k, q, i, cls, x) == [k |-> k, t |-> now, q |-> q, inv |-> i, cls |-> cls, x |-> x, r |-> 1, ty |-> "", obs |-> -1]
 Step(es) == /\ emit' = es /\ obs' = ObsFold(obs, es)
 
 RECURSIVE SetToSeq(_)
